@@ -138,7 +138,21 @@ func (c *Ctx) flagRegOf(info *types.Info, call *ast.CallExpr) *flagReg {
 	}
 	// the command the flag set belongs to: xCmd.Flags() / xCmd.PersistentFlags()
 	if sel, ok := unparen(call.Fun).(*ast.SelectorExpr); ok {
-		if inner, ok := unparen(sel.X).(*ast.CallExpr); ok {
+		recv := unparen(sel.X)
+		// `flags := xCmd.PersistentFlags()` kept in a local that is defined once
+		if id, ok := recv.(*ast.Ident); ok {
+			if lo, ok := info.Uses[id].(*types.Var); ok && !lo.IsField() {
+				c.autoOpts(info, id) // fills declSpans
+				for _, fd := range c.declSpans {
+					if fd.Pos() <= id.Pos() && id.Pos() < fd.End() {
+						if vals := localDefs(info, fd.Body, lo); len(vals) == 1 {
+							recv = unparen(vals[0])
+						}
+					}
+				}
+			}
+		}
+		if inner, ok := recv.(*ast.CallExpr); ok {
 			if s2, ok := unparen(inner.Fun).(*ast.SelectorExpr); ok {
 				r.cmdVar = types.ExprString(s2.X)
 				r.persistent = s2.Sel.Name == "PersistentFlags"
@@ -498,6 +512,33 @@ func (c *Ctx) flagRegsThroughHelper(p *packages.Package, fd *ast.FuncDecl, reg *
 				return true
 			})
 		}
+	}
+	return out
+}
+
+// localDefs: every right-hand side assigned to local v in body (nil entries never; a tuple
+// assignment from one call yields no value and makes the result nil).
+func localDefs(info *types.Info, body ast.Node, v types.Object) []ast.Expr {
+	var out []ast.Expr
+	bad := false
+	ast.Inspect(body, func(n ast.Node) bool {
+		as, ok := n.(*ast.AssignStmt)
+		if !ok {
+			return true
+		}
+		for i, l := range as.Lhs {
+			if identObj(info, l) == v {
+				if len(as.Lhs) != len(as.Rhs) {
+					bad = true
+				} else {
+					out = append(out, as.Rhs[i])
+				}
+			}
+		}
+		return true
+	})
+	if bad {
+		return nil
 	}
 	return out
 }
